@@ -42,12 +42,26 @@ func VerifTxnSequence() {
 	// reference state
 	open := ""         // id of the open (applied, unconfirmed) transaction
 	undetermined := false // a Set ended without applying anything: may hold the datastore until the timeout at most
+	cancelFailed := false // a Cancel of the open transaction failed because the device refused the rollback
 	txn := 0
 	for i := 0; i < n; i++ {
-		op := verifrt.Choice("op", 10)
+		op := verifrt.Choice("op", 12)
 		setsBefore := env.tgt.Sets
 		same := false
 		reuseID := false
+		deadCtx := false
+		failRollback := false
+		if op == 10 {
+			// Set(valid) whose request context is ALREADY over when the datastore gets to it (the
+			// client gave up while the request was queued): refused, nothing registered, nothing sent
+			op, deadCtx = 0, true
+		}
+		if op == 11 {
+			// Cancel while the device refuses the rollback: the cancel fails, the transaction is
+			// still unresolved - it can be cancelled or confirmed again, and the timeout still
+			// resolves it
+			op, failRollback = 5, true
+		}
 		if op == 9 {
 			// Set(valid) that REUSES the id of the open transaction (a client re-sending a
 			// request whose answer it lost): refused like any other Set while one is open, and
@@ -67,6 +81,9 @@ func VerifTxnSequence() {
 				id = open
 			}
 			ctx, cancel := context.WithTimeout(context.Background(), 50*time.Millisecond)
+			if deadCtx {
+				cancel()
+			}
 			if op == 3 {
 				env.tgt.FailSet = env.tgt.Sets + 1
 			}
@@ -78,6 +95,12 @@ func VerifTxnSequence() {
 			cancel()
 			env.tgt.FailSet = 0
 			verifrt.Reach("set-returned")
+			if deadCtx {
+				verifrt.Assert(err != nil, "C06-set-with-ended-context-refused")
+				verifrt.Assert(env.tgt.Sets == setsBefore, "C06-refused-set-sends-nothing")
+				// no effect on the reference state: the final part checks that nothing stayed registered
+				break
+			}
 			if open != "" {
 				verifrt.Assert(errors.Is(err, ErrDatastoreLocked), "C06-set-refused-while-transaction-open")
 				verifrt.Assert(env.tgt.Sets == setsBefore, "C06-refused-set-sends-nothing")
@@ -113,11 +136,15 @@ func VerifTxnSequence() {
 				id = open
 			}
 			var err error
+			if failRollback {
+				env.tgt.FailSet = env.tgt.Sets + 1
+			}
 			if op == 4 {
 				err = env.ds.TransactionConfirm(context.Background(), id)
 			} else {
 				err = env.ds.TransactionCancel(context.Background(), id)
 			}
+			env.tgt.FailSet = 0
 			verifrt.AwaitQuiescence()
 			verifrt.Reach("confirm-cancel-returned")
 			if open == "" || id != open {
@@ -125,13 +152,19 @@ func VerifTxnSequence() {
 				verifrt.Assert(env.tgt.Sets == setsBefore, "C06-confirm-cancel-of-other-id-triggers-no-rollback")
 				break
 			}
+			if failRollback {
+				verifrt.Assert(err != nil, "C06-cancel-whose-rollback-failed-returns-the-error")
+				verifrt.Assert(env.tgt.Sets == setsBefore+1, "C06-cancel-rolls-back-once")
+				cancelFailed = true
+				break // still open
+			}
 			verifrt.Assert(err == nil, "C06-confirm-cancel-of-open-id-succeeds")
 			if op == 4 {
 				verifrt.Assert(env.tgt.Sets == setsBefore, "C06-confirm-sends-nothing")
 			} else {
 				verifrt.Assert(env.tgt.Sets == setsBefore+1, "C06-cancel-rolls-back-once")
 			}
-			open = ""
+			open, cancelFailed = "", false
 		case 6, 7: // wait for the transaction timeout (7: the device is unreachable when the rollback is sent)
 			verifrt.AwaitQuiescence()
 			if op == 7 {
@@ -141,12 +174,16 @@ func VerifTxnSequence() {
 			verifrt.AwaitQuiescence()
 			env.tgt.FailSet = 0
 			verifrt.Reach("waited")
-			if open != "" {
+			if open != "" && cancelFailed {
+				if env.tgt.Sets != setsBefore+1 {
+					verifrt.Assert(false, "C06-timeout-rolls-back-open-transaction-once/after-cancel-whose-rollback-failed")
+				}
+			} else if open != "" {
 				verifrt.Assert(env.tgt.Sets == setsBefore+1, "C06-timeout-rolls-back-open-transaction-once")
 			} else {
 				verifrt.Assert(env.tgt.Sets == setsBefore, "C06-timeout-without-open-transaction-sends-nothing")
 			}
-			open, undetermined = "", false
+			open, undetermined, cancelFailed = "", false, false
 		}
 	}
 	// whatever happened: once the timeout has passed with the client doing nothing, a new transaction is accepted
@@ -154,7 +191,11 @@ func VerifTxnSequence() {
 	setsBefore := env.tgt.Sets
 	verifrt.Advance(v06Timeout + 200*time.Millisecond)
 	verifrt.AwaitQuiescence()
-	if open != "" {
+	if open != "" && cancelFailed {
+		if env.tgt.Sets != setsBefore+1 {
+			verifrt.Assert(false, "C06-timeout-rolls-back-open-transaction-once/after-cancel-whose-rollback-failed")
+		}
+	} else if open != "" {
 		verifrt.Assert(env.tgt.Sets == setsBefore+1, "C06-timeout-rolls-back-open-transaction-once")
 	} else {
 		verifrt.Assert(env.tgt.Sets == setsBefore, "C06-timeout-without-open-transaction-sends-nothing")
@@ -163,6 +204,12 @@ func VerifTxnSequence() {
 	rsp, err := env.ds.TransactionSet(ctx, "final", v06Intent(env, true, 9), nil, v06Timeout, false)
 	cancel()
 	verifrt.Reach("final-set")
+	if open != "" && cancelFailed {
+		if !(err == nil && !vHasErrors(rsp)) {
+			verifrt.Assert(false, "C06-never-wedged-new-transaction-accepted-after-timeout/after-cancel-whose-rollback-failed")
+		}
+		return
+	}
 	verifrt.Assert(err == nil && !vHasErrors(rsp), "C06-never-wedged-new-transaction-accepted-after-timeout")
 }
 
